@@ -361,6 +361,39 @@ fn cases(tier: Tier) -> Vec<Case> {
             }
         }
     }
+    // ---- (4b) top-k sweep: every window (LIMIT k OFFSET o) over keys with runs of ties after the fixed-width prefix
+    // pass (duplicate strings resolved by a secondary key, strings sharing a 14-byte prefix): the cut falls before,
+    // inside, at the start and at the end of every tie run
+    {
+        let data: Vec<(Option<&str>, i32)> = vec![
+            (Some("a"), 1), (Some("b"), 2), (Some("c"), 9), (Some("c"), 8), (Some("c"), 7), (Some("c"), 3), (Some("pppppppppppppp3"), 1), (Some("pppppppppppppp1"), 2),
+            (Some("pppppppppppppp2"), 3), (Some("pppppppppppppp1"), 0), (None, 5), (None, 4), (Some("d"), 1), (Some("pppppppppppppp"), 6), (Some("c"), 1),
+        ];
+        let n = data.len();
+        let rows: Vec<String> = (0..n).map(|i| { let (s0, id) = &data[(i * 4) % n]; format!("({}, {id})", s0.map(|x| format!("'{x}'")).unwrap_or_else(|| "CAST(NULL AS TEXT)".into())) }).collect();
+        let src = format!("(VALUES {}) v(s, id)", rows.join(", "));
+        for (d1, d2) in [(false, false), (true, false), (false, true), (true, true)] {
+            if !full && d1 != d2 {
+                continue;
+            }
+            for off in if full { vec![0usize, 1, 2, 5] } else { vec![0usize, 2] } {
+                for lim in 0..=n + 1 {
+                    for (p, b) in if full { vec![(1usize, 2048usize), (3, 2), (2, 4)] } else { vec![(1, 2048), (3, 2)] } {
+                        out.push(Case {
+                            shape: "topk-sweep".into(),
+                            sets: vec![format!("SET partitions TO {p}"), format!("SET batch_size TO {b}")],
+                            setup: vec![],
+                            sql: format!("SELECT s, id FROM {src} ORDER BY s{}, id{} LIMIT {lim} OFFSET {off}", dir_sql(d1, None), dir_sql(d2, None)),
+                            keys: vec![key(1, d1, None), key(2, d2, None)],
+                            input_sql: Some(format!("SELECT s, id FROM {src}")),
+                            slice: Some((off, lim)),
+                            note: format!("desc {d1}/{d2} LIMIT {lim} OFFSET {off} P{p} B{b}"),
+                        });
+                    }
+                }
+            }
+        }
+    }
     // ---- (5) LIMIT / OFFSET around 0, batch size and N
     {
         let n = 7usize;
